@@ -5,5 +5,6 @@ pub mod c14;
 pub mod c15;
 pub mod c25;
 pub mod c57;
+pub mod fuzzapi;
 pub mod msref;
 pub mod tapio;
